@@ -61,7 +61,54 @@ func newNPFix() *npFix {
 	return f
 }
 
-func (f *npFix) done() { f.a.VerifForgetFakeNDP() }
+func (f *npFix) done() {
+	f.a.VerifForgetFakeNDP()
+	VerifVirtualIfs = nil
+}
+
+var npLL = map[string]string{"eth0": "fe80::10", "eth1": "fe80::11"}
+
+// newNPHotFix builds the announcer's NDP responders the way production does: the real updateInterfaces over a virtual
+// interface list (net.Interfaces / Interface.Addrs / ndp.Dial redirected), so that interfaces can come and go.
+func newNPHotFix() *npFix {
+	verifrt.Suppress["interfaceScan"] = true
+	verifrt.Suppress["spamLoop"] = true
+	verifrt.Suppress["run"] = true // the responder's read loop: the harness calls processRequest itself
+	a, err := New(log.NewNopLogger(), nil)
+	if err != nil {
+		panic(err)
+	}
+	f := &npFix{a: a, fakes: map[string]*VerifNDPFake{}, idx: map[string]int{"eth0": 200, "eth1": 201}, mac: map[string]net.HardwareAddr{"eth0": npMac0, "eth1": npMac1}}
+	VerifVirtualNDP = map[string]*VerifNDPFake{}
+	VerifVirtualAddrs = map[string][]net.Addr{}
+	f.setIfs(true, true)
+	return f
+}
+
+// setIfs presents eth0 (always) and eth1 (when up1; with a link-local address when ll1) and runs the real interface scan.
+func (f *npFix) setIfs(up1, ll1 bool) {
+	mk := func(name string) net.Interface {
+		return net.Interface{Index: f.idx[name], Name: name, HardwareAddr: f.mac[name], MTU: 1500, Flags: net.FlagUp | net.FlagMulticast}
+	}
+	ifs := []net.Interface{mk("eth0")}
+	if up1 {
+		ifs = append(ifs, mk("eth1"))
+	}
+	for _, n := range []string{"eth0", "eth1"} {
+		VerifVirtualAddrs[n] = []net.Addr{&net.IPNet{IP: net.ParseIP("fd00:99::1"), Mask: net.CIDRMask(64, 128)}}
+		if n == "eth0" || ll1 {
+			VerifVirtualAddrs[n] = append(VerifVirtualAddrs[n], &net.IPNet{IP: net.ParseIP(npLL[n]), Mask: net.CIDRMask(64, 128)})
+		}
+		if f.a.VerifNDPIndex(n) < 0 {
+			// a responder created by this scan gets a new connection
+			fk := NewVerifNDPFake()
+			VerifVirtualNDP[n] = fk
+			f.fakes[n] = fk
+		}
+	}
+	VerifVirtualIfs = ifs
+	f.a.VerifUpdateInterfaces()
+}
 
 // ---- frames ----
 
@@ -287,7 +334,7 @@ func npPktCheck(res *verifrt.Result, p npPkt) {
 // ---- part seq ----
 
 type npOp struct {
-	Kind  string `json:"k"` // set | del
+	Kind  string `json:"k"` // set | del | if1 (eth1: Scope 0 = gone, 1 = up with a link-local address, 2 = up without one)
 	Svc   int    `json:"svc"`
 	IP    int    `json:"ip,omitempty"`
 	Scope int    `json:"scope,omitempty"`
@@ -298,6 +345,9 @@ var npScopes = [][]string{nil /* all */, {"eth0"}}
 var npSvcs = []string{"ns/s1", "ns/s2"}
 
 func (o npOp) String() string {
+	if o.Kind == "if1" {
+		return "interface eth1 " + []string{"disappears", "is up with a link-local address", "is up without a link-local address"}[o.Scope]
+	}
 	if o.Kind == "del" {
 		return "withdraw " + npSvcs[o.Svc]
 	}
@@ -343,10 +393,11 @@ func (m npModel) covers(ip int, intf string) (held, covered bool) {
 
 func npSeqExec(res *verifrt.Result, ops []npOp) (key string, ok bool) {
 	res.Count("evaluations", 1)
-	f := newNPFix()
+	f := newNPHotFix()
 	defer f.done()
 	a := f.a
 	m := npModel{}
+	has1 := true // eth1 has an NDP responder
 	var rd []string
 	for _, o := range ops {
 		rd = append(rd, o.String())
@@ -354,7 +405,10 @@ func npSeqExec(res *verifrt.Result, ops []npOp) (key string, ok bool) {
 	c := npCase{Part: "seq", Ops: ops, Read: rd}
 	for i, o := range ops {
 		res.Count("transitions", 1)
-		if o.Kind == "set" {
+		if o.Kind == "if1" {
+			f.setIfs(o.Scope != 0, o.Scope == 1)
+			has1 = o.Scope == 1
+		} else if o.Kind == "set" {
 			if cur, ok := m[o.Svc]; ok {
 				if _, same := cur[o.IP]; !same {
 					a.DeleteBalancer(npSvcs[o.Svc])
@@ -377,6 +431,14 @@ func npSeqExec(res *verifrt.Result, ops []npOp) (key string, ok bool) {
 			delete(m, o.Svc)
 		}
 		where := fmt.Sprintf("after operation %d (%s)\n  history: %s", i+1, o, strings.Join(rd, " ; "))
+		present := []string{"eth0"}
+		if has1 {
+			present = append(present, "eth1")
+		}
+		if got := strings.Join(a.VerifNDPResponderNames(), ","); got != strings.Join(present, ",") {
+			res.Violate("C13 ndp: responders differ from the interfaces that can answer", fmt.Sprintf("%s: responders on %s, want %s", where, got, strings.Join(present, ",")), c)
+			return "", false
+		}
 		// unsolicited advertisements for what the operation queued
 		for _, fk := range f.fakes {
 			fk.TakeOut()
@@ -390,7 +452,7 @@ func npSeqExec(res *verifrt.Result, ops []npOp) (key string, ok bool) {
 				}
 			}
 			held, _ := m.covers(ipi, "")
-			for _, intf := range []string{"eth0", "eth1"} {
+			for _, intf := range present {
 				out := f.fakes[intf].TakeOut()
 				want := 0
 				if held && adv.matchInterface(intf) {
@@ -428,7 +490,7 @@ func npSeqExec(res *verifrt.Result, ops []npOp) (key string, ok bool) {
 			wg = append(wg, g)
 		}
 		sort.Strings(wg)
-		for _, intf := range []string{"eth0", "eth1"} {
+		for _, intf := range present {
 			got := f.fakes[intf].Groups()
 			if strings.Join(got, ",") != strings.Join(wg, ",") {
 				kind := "joined although no announced address needs the group"
@@ -445,12 +507,12 @@ func npSeqExec(res *verifrt.Result, ops []npOp) (key string, ok bool) {
 		}
 		// a solicitation for every address on every interface
 		for ipi, ip := range npIPs {
-			for _, intf := range []string{"eth0", "eth1"} {
+			for _, intf := range present {
 				_, covered := m.covers(ipi, intf)
 				held, _ := m.covers(ipi, "")
 				fk := f.fakes[intf]
 				fk.Push(npFrame(135, net.ParseIP(ip), "S"), net.ParseIP("fe80::9"))
-				r := a.VerifProcessNDP(f.idx[intf])
+				r := a.VerifProcessNDP(a.VerifNDPIndex(intf))
 				out := fk.TakeOut()
 				want := "not-held"
 				if covered {
@@ -466,7 +528,7 @@ func npSeqExec(res *verifrt.Result, ops []npOp) (key string, ok bool) {
 		}
 	}
 	res.Outcome(fmt.Sprintf("services=%d", len(m)))
-	return a.VerifDump() + "|" + strings.Join(f.fakes["eth0"].Groups(), ",") + "|" + a.VerifNDPGroups(100) + "|" + a.VerifNDPGroups(101), true
+	return fmt.Sprintf("%s|%v|%s|%s|%s", a.VerifDump(), has1, strings.Join(f.fakes["eth0"].Groups(), ","), a.VerifNDPGroups(200), a.VerifNDPGroups(201)), true
 }
 
 func TestVerif_C13ndppkt(t *testing.T) {
@@ -558,6 +620,9 @@ func TestVerif_C13ndppkt(t *testing.T) {
 			}
 		}
 		alphabet = append(alphabet, npOp{Kind: "del", Svc: s})
+	}
+	for sc := 0; sc < 3; sc++ {
+		alphabet = append(alphabet, npOp{Kind: "if1", Scope: sc})
 	}
 	depth := 8
 	if verifrt.Thorough() {
